@@ -38,6 +38,11 @@ type conf struct {
 	// seq > 0: one caller issues seq calls one after the other; every reply is sent dup times
 	seq int
 	dup int
+	// every caller has its own ServantProxy object for the same remote object (they share the
+	// endpoint manager, the connection and the pending-reply table)
+	ownProxies bool
+	// extra "cut": the connection of caller 0 ends after 12 bytes of its reply; caller 1 starts 1.5 s later,
+	// forces the reconnect and is answered in full on the new connection
 }
 
 func perms(n int) [][]int {
@@ -71,6 +76,13 @@ func scenario(c conf) *vm.Scenario {
 		start := vm.Now()
 		vm.GoNamed("server", func() { server(c, ln, start) })
 		sp := tars.NewServantProxy(comm, obj)
+		sps := make([]*tars.ServantProxy, c.callers)
+		for i := range sps {
+			sps[i] = sp
+			if c.ownProxies && i > 0 {
+				sps[i] = tars.NewServantProxy(comm, obj)
+			}
+		}
 		done := make(chan struct{}, c.callers)
 		rounds := 1
 		if c.seq > 0 {
@@ -79,6 +91,9 @@ func scenario(c conf) *vm.Scenario {
 		for i := 0; i < c.callers; i++ {
 			i := i
 			vm.GoNamed(fmt.Sprintf("caller%d", i), func() {
+				if c.extra == "cut" && i == 1 {
+					vm.Sleep(int64(1500 * time.Millisecond))
+				}
 				for round := 0; round < rounds; round++ {
 					var resp requestf.ResponsePacket
 					payload := []byte{0xA0 + byte(i), byte(i)}
@@ -86,7 +101,7 @@ func scenario(c conf) *vm.Scenario {
 						i = round
 						payload = []byte{0xA0 + byte(round), byte(round)}
 					}
-					err := sp.TarsInvoke(context.Background(), 0, "echo", payload, nil, nil, &resp)
+					err := sps[i%len(sps)].TarsInvoke(context.Background(), 0, "echo", payload, nil, nil, &resp)
 					switch {
 					case err == nil:
 						b := make([]byte, len(resp.SBuffer))
@@ -163,6 +178,18 @@ func server(c conf, ln vnet.Listener, start int64) {
 			}
 			vm.Log("server replied id=%d x%d", r.q.ID, c.dup)
 		}
+		return
+	}
+	if c.extra == "cut" {
+		r0 := vm.Recv(in)
+		pkt := (&tnet.Response{Version: r0.q.Version, PacketType: 0, ID: r0.q.ID, Buffer: r0.q.Buffer, Status: map[string]string{}}).Encode()
+		r0.conn.Write(pkt[:12])
+		vm.Block("server-wait-drain", func() bool { return r0.conn.PeerUnread() == 0 || r0.conn.PeerClosed() })
+		r0.conn.Close()
+		vm.Log("server cut the reply to id=%d after 12 bytes and closed", r0.q.ID)
+		r1 := vm.Recv(in)
+		r1.conn.Write((&tnet.Response{Version: r1.q.Version, PacketType: 0, ID: r1.q.ID, Buffer: r1.q.Buffer, Status: map[string]string{}}).Encode())
+		vm.Log("server replied id=%d", r1.q.ID)
 		return
 	}
 	var reqs []*tnet.Request
@@ -278,7 +305,7 @@ func check(c conf, r *vm.Result) string {
 		}
 		if n, _ := fmt.Sscanf(o, "caller %d timeout t=%dms", &i, &t); n == 2 {
 			seen++
-			late := i == 0 && (c.delay0 == "at" || c.delay0 == "after")
+			late := i == 0 && (c.delay0 == "at" || c.delay0 == "after" || c.extra == "cut")
 			if !late {
 				msgs = append(msgs, fmt.Sprintf("caller-timed-out-although-its-reply-was-sent-in-time\ncaller %d", i))
 			}
@@ -307,14 +334,19 @@ func check(c conf, r *vm.Result) string {
 
 // ---- request id generator -------------------------------------------------------
 
-func genScenario(startID int32, n, each int) *vm.Scenario {
-	sc := &vm.Scenario{Name: fmt.Sprintf("genRequestID start=%d goroutines=%d x%d", startID, n, each)}
+func genScenario(startID int32, n, each int, ownProxies ...bool) *vm.Scenario {
+	own := len(ownProxies) > 0 && ownProxies[0]
+	sc := &vm.Scenario{Name: fmt.Sprintf("genRequestID start=%d goroutines=%d x%d own-proxies=%v", startID, n, each, own)}
 	sc.Main = func() {
 		comm := tars.VerifNewCommunicator(tars.VerifClientOpts{MsgID: startID, CheckStatusInterval: 60000})
-		sp := tars.NewServantProxy(comm, obj)
+		sp0 := tars.NewServantProxy(comm, obj)
 		done := make(chan struct{}, n)
 		for i := 0; i < n; i++ {
 			i := i
+			sp := sp0
+			if own && i > 0 {
+				sp = tars.NewServantProxy(comm, obj)
+			}
 			vm.GoNamed("gen", func() {
 				for k := 0; k < each; k++ {
 					vm.Log("id %d by %d", tars.VerifGenRequestID(sp), i)
@@ -385,7 +417,13 @@ func main() {
 		add(conf{name: fmt.Sprintf("sequential calls, every reply x%d", dup), callers: 1, timeout: 300, quiet: true, seq: 3, dup: dup}, 1, false)
 		add(conf{name: fmt.Sprintf("sequential calls, every reply x%d", dup), callers: 1, timeout: 300, quiet: true, seq: 2, dup: dup}, deep, true)
 	}
+	add(conf{name: "2 callers with a proxy object each", callers: 2, timeout: 300, quiet: true, allOrders: true, ownProxies: true}, 1, false)
+	add(conf{name: "3 callers with a proxy object each", callers: 3, timeout: 300, quiet: true, allOrders: true, ownProxies: true}, 1, false)
+	add(conf{name: "reply cut by a close, next caller reconnects", callers: 2, timeout: 3000, quiet: true, extra: "cut"}, 1, false)
+	add(conf{name: "reply cut by a close, next caller reconnects", callers: 2, timeout: 3000, extra: "cut"}, 1, false)
 	maxI := int32(1<<31 - 1)
+	cases = append(cases, e1.Case{Sc: genScenario(0, 2, 2, true), Opt: vm.Options{Bound: -1, Prune: true}, Budget: budget, MinOutcomes: 1})
+	cases = append(cases, e1.Case{Sc: genScenario(maxI-1, 3, 1, true), Opt: vm.Options{Bound: -1, Prune: true}, Budget: budget, MinOutcomes: 1})
 	for _, s := range []int32{maxI - 2, maxI - 1, maxI, -3, -2, -1, 0} {
 		cases = append(cases, e1.Case{Sc: genScenario(s, 2, 2), Opt: vm.Options{Bound: -1, Prune: true}, Budget: budget, MinOutcomes: 1})
 		cases = append(cases, e1.Case{Sc: genScenario(s, 3, 1), Opt: vm.Options{Bound: -1, Prune: true}, Budget: budget, MinOutcomes: 1})
